@@ -27,7 +27,7 @@ AllGood == UNION {GoodFrom(ip) : ip \in AddrsOf(net)}
 Case ==
     [net |-> net, q |-> q, lim |-> Lim,
      exp |-> [records |-> AllGood \ DeniedAnswers(net, AllGood),
-              contact |-> (net.roots \cup {AddrOf(r) : r \in {x \in AllGood : IsAddr(x)}}) \ net.denyS,
+              contact |-> {a \in net.roots \cup {AddrOf(r) : r \in {x \in AllGood : IsAddr(x)}} : ~DeniedContact(net, a)},
               bound |-> Bound(net, Lim)],
      model |-> [kind |-> out.kind, recs |-> out.recs, asked |-> Len(log)]]
 
